@@ -19,6 +19,61 @@ def self_field(o):
 OVERLAYS = ('K2b',)
 
 
+def span_filter_sees_level(chk, P, key):
+    """The filter a span macro consults before it begins (`__PrivateBeginSpanFilter`, built by `__private_begin_span`) judges the span's event *with
+    the macro-assigned level attached*: every Filter::matches call in it - the call-site `when` as well as the runtime's filter, on every path -
+    is given an event that went through `map_props(.. and_props(lvl prop))`, the level prop being derived from the hook's `lvl` field.
+    Otherwise `#[emit::warn_span(when: min_filter(Warn))]` is judged as an unleveled (Info) event.  Shared with C01 (the effective filter sees
+    the event as destinations will)."""
+    def f():
+        ks = [k for k in P.bodies if "__PrivateBeginSpanFilter" in k and k.endswith("as emit_core::filter::Filter>::matches")]
+        if not ks:
+            raise mir.AnchorMissing("<__PrivateBeginSpanFilter as Filter>::matches")
+        b = P.body(ks[0])
+        ms = [c for c in b.calls(normal_only=True) if c.callee.get("name") == "matches" and (c.callee.get("trait") or "").endswith("filter::Filter")]
+        if not ms:
+            return False, "the span's begin filter consults no filter", [], b.span
+        for c in ms:
+            eo = b.origin(c.args[1])
+            mp = None
+            x, d = eo, 0
+            while d < 8:
+                d += 1
+                if x[0] == "call" and x[1].callee.get("name") == "map_props":
+                    mp = x[1]
+                    break
+                if x[0] == "call" and x[1].args:
+                    x = b.origin(x[1].args[0])
+                    continue
+                if x[0] in ("ref", "deref", "copy"):
+                    x = x[1]
+                    continue
+                break
+            ok = False
+            if mp is not None:
+                clo = b.origin(mp.args[1])
+                if clo[0] == "agg" and clo[1].get("ak") == "closure" and P.has_body(clo[1].get("def")):
+                    cb = P.body(clo[1]["def"])
+                    ap = [y for y in cb.calls(normal_only=True) if y.callee.get("name") == "and_props"]
+                    caps = [common.capture_source(P, cb, cb.origin(a))[0] if cb.origin(a)[0] == "capture" else cb.origin(a) for y in ap for a in y.args]
+                    def from_lvl(o, dd=0):
+                        if dd > 10:
+                            return False
+                        if (mir.o_field_path(o)[1] or [None])[-1] == "lvl" and mir.o_is_param(mir.o_root(o), idx=1):
+                            return True
+                        if o[0] == "call":
+                            return any(from_lvl(o[1].body.origin(a), dd + 1) for a in o[1].args[:1])
+                        if o[0] in ("ref", "deref", "copy", "field", "downcast"):
+                            return from_lvl(o[1], dd + 1)
+                        return False
+                    ok = any(from_lvl(o) for o in caps)
+            if not ok:
+                return False, ("the filter consulted at %s judges the span's event without the macro-assigned level attached (%s): a levelled span is filtered as "
+                               "if it had no level" % (c.loc, mir.o_str(eo)[:100])), [], c.loc
+        return True, "", [c.loc for c in ms]
+    chk.ob(key, "every filter a span macro consults before beginning sees the span's event with its macro-assigned level", f)
+
+
 def level_parse_rule(chk, P, key):
     """The lenient level parser walks the input and the expected spelling in lock step (shared with C15: a level's text parses back to it).
     Both cursors are re-sliced `[1..]` together - once before the loop (the first letter was matched by the caller) and once per matched
@@ -430,4 +485,5 @@ def run(chk):
     common.builder_rules(chk, P, "C17", lambda b: b.key.startswith("emit::level::MinLevelFilter::<"), 1)
     common.level_parser_table(chk, P, "C17")
     level_parse_rule(chk, P, "C17.R2:level-parse")
+    span_filter_sees_level(chk, P, "C17.R6:span-filter-sees-level")
     return chk
